@@ -50,6 +50,8 @@ type Spec struct {
 	hashMustHold bool
 	mute         bool
 	reopened     bool // the handle was closed / abandoned and reopened at least once
+	switched      bool   // an accepted Create on the existing collection changed cache / asynchronous-write settings (C17)
+	justCommitted string // "flushallc" / "close" when that call returned ok and nothing changed the collection since
 	ticksQuiet   int  // flusher ticks since the last call that may leave a write pending (async)
 	dirty        bool // a write may be pending (async mode, since the last flush / commit / close)
 	outside      bool // the directory was modified from outside (fault ops)
@@ -102,8 +104,13 @@ func (s *Spec) fail(e *Exec, prop, format string, a ...interface{}) {
 	if s.cfg.Async && (prop == "C01") {
 		extra["C10"] = true
 	}
+	//  - "Create ... may switch cache and asynchronous-write settings at any time without losing
+	//    pending writes": what is read after such a switch contradicts what was accepted: C17
+	if s.switched && (prop == "C01" || prop == "C02" || prop == "C03" || prop == "C10" || prop == "C13") {
+		extra["C17"] = true
+	}
 	delete(extra, prop)
-	for _, x := range []string{"C04", "C10", "C15", "C16"} {
+	for _, x := range []string{"C04", "C10", "C15", "C16", "C17"} {
 		if extra[x] {
 			fmt.Fprintf(e.w, "! %s [%s] %s\n", x, prop, msg)
 		}
@@ -813,6 +820,16 @@ func (s *Spec) stateOracles(e *Exec, t, r []string) {
 		s.outside = true
 	}
 	switch t[0] {
+	case "flushallc", "close":
+		s.justCommitted = ""
+		if r[0] == "ok" {
+			s.justCommitted = t[0]
+		}
+	case "ins", "many", "bulk", "del", "delall", "sdel", "create", "recreate", "recreatebad", "repair", "reopen", "vopen", "commit", "flushall",
+		"rmfile", "corrupt", "truncfile", "addfile", "rmschema", "rmentry", "stray", "drop", "failat", "crashat":
+		s.justCommitted = ""
+	}
+	switch t[0] {
 	case "reopen", "close", "vopen":
 		s.loaded, s.memStale = false, false
 	case "rmschema", "rmentry":
@@ -901,6 +918,7 @@ func (s *Spec) stateOracles(e *Exec, t, r []string) {
 	case "fs":
 		s.noGhostFile(e)
 		s.flushedInTime(e)
+		s.committed(e)
 		s.agreement(e)
 	case "repair":
 		if e.repairTouched && !s.faulted && s.crashCtx == "" {
@@ -985,6 +1003,66 @@ func (s *Spec) flushedInTime(e *Exec) {
 		s.fail(e, "C10", "asynchronous writes: object #%d was accepted, the flusher was ticked %d times (timeout %d steps) with no call in between, and it has no file", first, s.ticksQuiet, e.cfg.To)
 	} else if missing >= e.cfg.Thr && e.cfg.Thr > 0 {
 		s.fail(e, "C10", "asynchronous writes: %d accepted objects have no file (threshold %d) although the flusher was ticked %d time(s) since the last call", missing, e.cfg.Thr, s.ticksQuiet)
+	}
+}
+
+// committed (C10): "Close and FlushAllAndCommit return only after everything accepted is on disk and
+// the schema is committed": right after such a call returned without error, whatever the history
+// before (also when nothing was pending any more), the directory holds one file per accepted object and
+// the id table of schema.json names exactly the accepted objects.
+func (s *Spec) committed(e *Exec) {
+	if s.off || s.faulted || s.outside || s.crashCtx != "" || s.mute || s.variant > 1 || s.justCommitted == "" {
+		return
+	}
+	have := map[int]bool{}
+	named := map[int]bool{}
+	sawIds := false
+	for _, l := range e.obs {
+		f := strings.Fields(l)
+		if len(f) >= 3 && f[0] == "s" && f[1] == "file" && strings.HasPrefix(f[2], "U") {
+			name := f[2]
+			if i := strings.IndexByte(name, '.'); i >= 0 {
+				name = name[:i]
+			}
+			if u, err := strconv.Atoi(name[1:]); err == nil {
+				have[u] = true
+			}
+		}
+		if len(f) >= 2 && f[0] == "s" && f[1] == "sids" {
+			sawIds = true
+			for _, p := range f[2:] {
+				if i := strings.IndexByte(p, ':'); i >= 0 {
+					if u, err := strconv.Atoi(p[i+1:]); err == nil {
+						named[u] = true
+					}
+				}
+			}
+		}
+	}
+	prop := "C04"
+	if e.cfg.Async {
+		prop = "C10"
+	}
+	for u := range s.live {
+		if !have[u] {
+			s.fail(e, prop, "%s returned without error and accepted object #%d has no file", s.justCommitted, u)
+			return
+		}
+	}
+	if !sawIds {
+		return
+	}
+	for u := range s.live {
+		if !named[u] {
+			s.fail(e, prop, "%s returned without error and the committed schema does not name accepted object #%d (a new handle would find the index corrupted)", s.justCommitted, u)
+			return
+		}
+	}
+	for u := range named {
+		if _, ok := s.live[u]; !ok {
+			s.fail(e, prop, "%s returned without error and the committed schema still names object #%d, which is not in the collection", s.justCommitted, u)
+			return
+		}
 	}
 }
 
@@ -1205,6 +1283,9 @@ func (s *Spec) c17(e *Exec, t, r []string) bool {
 		// a refused re-creation must not touch the files; an accepted one may rewrite schema.json
 		if r[0] == "ok" {
 			s.hashMustHold = false
+			if len(t) > 1 && (strings.HasPrefix(t[1], "cache=") || strings.HasPrefix(t[1], "async=")) {
+				s.switched = true
+			}
 		}
 		if len(t) > 1 && (strings.HasPrefix(t[1], "ext=") || strings.HasPrefix(t[1], "cons=")) && s.variant <= 1 {
 			want := "fielddesc"
